@@ -212,7 +212,7 @@ theorem item_sound (tb : Tables) (ht : tb.Trans) (hu : tb.InstUp) (xsd11 : Bool)
         case kindT k nt ta o' => cases k <;> simp [Leaf.cls, coreCls] at hcore
       | func aS rS =>
         simp only [Ty.strip, Ty.cls, coreCls, Bool.and_eq_true] at hcore
-        obtain ⟨⟨⟨_, _⟩, hargs⟩, hret⟩ := hcore
+        obtain ⟨hargs, hret⟩ := hcore
         have hrr : isRestriction tb rT rS = true := isRestriction_of_strip tb rT rS hret hocc
         cases x with
         | func sa sr =>
